@@ -22,7 +22,9 @@ RULE = (
     "resampler(2) x clustering(2) x normalize(2) x cluster_every{1,2,3} x n_max_clusters{None,1,2,4} x split_threshold{0.3,1,3} x metric{ESS,vv0.3,vv2} x "
     "n_steps/n_max_steps{None,(1,2),(3,10)} x evaluation{vector,scalar,blobs} x boundaries{none,periodic,reflective,both} x pool{None,pool-like,1,2} x "
     "save_every{None,1,3} x d{1,2,3} x ess_ratio{2,1,3.5}, N=32 (ESS target >= 32). invalid: Hypothesis draws a valid base and one offending value for one documented "
-    "constraint. Non-trivial: valid row with >=3 non-default factors; invalid case = any (each violates exactly one constraint)."
+    "constraint. Non-trivial: valid row with >=3 non-default factors; invalid case = any (each violates exactly one constraint). valid_full: random "
+    "complete valid configurations from vlib.cfggen (every option drawn in every case, incl. two blobs, odd particle counts, executor pools, a real "
+    "2-worker pool, extra likelihood arguments, save_every) - reaches the higher-order combinations a pairwise array does not guarantee."
 )
 ASSUMPTIONS = [
     "values the documentation does not constrain (NaN ess_ratio, cluster_every=0, numpy integer types, bool for int) are not asserted either way",
@@ -151,7 +153,41 @@ class ValidRows(RowCheck):
                 "sample": {"row": row, "seed": seed, "iterations": T, "ess": ess}}
 
 
+def valid_full_cases():
+    from vlib import cfggen
+
+    return st.tuples(cfggen.full_config(pools=(None, None, "permuting", "executor", 1, 2)), st.sampled_from([None, None, 1, 3])).map(
+        lambda t: dict(t[0], save_every=t[1]))
+
+
+def exec_valid_full(case):
+    """random complete valid configurations (vlib.cfggen): a covering array guarantees all pairs, random complete configurations reach
+    the higher-order combinations (any given 3-factor combination is met with probability > 0.99 in the quick tier)"""
+    from vlib import cfggen
+
+    np.random.seed(case["rs_value"] % 2**31)
+    label = ", ".join(f"{k}={v!r}" for k, v in cfggen.summary(case).items())
+    n_total = 2 * case["n_particles"]
+    with scratch_dir() as od, quiet():
+        (s, t) = lib_call(cfggen.build, case, None, od, what=f"Sampler({label})")
+        lib_call(s.run, n_total=n_total, progress=False, save_every=case["save_every"], what=f"Sampler({label}).run(save_every={case['save_every']})")
+    pobj = getattr(getattr(s, "_core", None), "config", None)
+    st_ = s.state
+    T = st_.get_history_length()
+    betas = [float(b) for b in st_.get_history("beta")]
+    L = [np.asarray(st_.get_history("logl", index=i), dtype=float) for i in range(T)]
+    lw, lz, _ = mis_logw(L, betas, [float(z) for z in st_.get_history("logz")], 1.0)
+    ess = ess_from_logw(lw)
+    if abs(1 - betas[-1]) >= 1e-4 or ess < n_total * (1 - 1e-9) or abs(float(s.evidence()[0]) - float(lz)) > 1e-9 * max(1, abs(float(lz))):
+        raise Violation(f"Sampler({label}).run() returned without the run postconditions (beta {betas[-1]!r}, ESS {ess:.2f} vs n_total {n_total}, "
+                        f"evidence {s.evidence()[0]!r} vs reference {float(lz)!r})", sig={"kind": "postconditions"})
+    return {"nontrivial": True, "classes": ["mode:" + case["mode"], "pool:%s" % case["pool"], "save_every:%s" % case["save_every"], "metric:" + case["metric"]],
+            "sample": dict(cfggen.summary(case), save_every=case["save_every"], iterations=T)}
+
+
 CHECKS = [
+    Check("valid_full", valid_full_cases, exec_valid_full, n={"quick": 64, "thorough": 1200}, shards={"quick": 16, "thorough": 16},
+          shrink={"quick": False, "thorough": True}),
     Check("invalid", invalid_cases, exec_invalid, n={"quick": 640, "thorough": 6000}, shards={"quick": 8, "thorough": 16}),
     ValidRows(),
 ]
